@@ -39,11 +39,24 @@ Theorem c04_threshold : forall c s t, 1 <= lc_after c -> 0 <= lc_window c ->
 Proof. exact c04_threshold_lemma. Qed.
 Print Assumptions c04_threshold.
 
-(* a pause longer than the window restarts the count at one and does not lock *)
+(* a pause longer than the window restarts the count at one; that failure locks exactly when
+   one failure is already the threshold *)
 Theorem c04_window_restart : forall c s t, lc_window c < t - l_last s ->
-  l_count (lstep c s (LFail t)) = 1 /\ l_locked (lstep c s (LFail t)) = l_locked s.
+  let s' := lstep c s (LFail t) in
+  l_count s' = 1 /\
+  (2 <= lc_after c -> l_locked s' = l_locked s) /\
+  (lc_after c <= 1 -> forall t', locked_at s' t' = true <-> t' < t + lc_duration c).
 Proof. exact c04_window_restart_lemma. Qed.
 Print Assumptions c04_window_restart.
+
+(* the property's sentence: the account becomes locked as soon as the count reaches LockAfter,
+   for LockDuration from the failure that (re)triggered it - whichever branch counted it *)
+Theorem c04_locked_as_soon_as : forall c s t,
+  let s' := lstep c s (LFail t) in
+  (lc_after c <= l_count s' -> forall t', locked_at s' t' = true <-> t' < t + lc_duration c) /\
+  (l_count s' < lc_after c -> l_locked s' = l_locked s).
+Proof. exact c04_locked_as_soon_as_lemma. Qed.
+Print Assumptions c04_locked_as_soon_as.
 
 (* over whole histories: k further failures, each inside the window of the attempt before
    it, raise the streak by exactly k whatever came before *)
